@@ -10,7 +10,7 @@ ROOT = os.path.dirname(os.path.dirname(os.path.abspath(__file__)))
 pid = sys.argv[1]
 name = sys.argv[3] if len(sys.argv) > 3 else pid
 dst = os.path.join(ROOT, "seeded", name)
-src = sys.argv[2] if len(sys.argv) > 2 else ("/tmp/seedwork/out/%s" % pid if os.path.isdir("/tmp/seedwork/out/%s" % pid) else dst)
+src = os.path.abspath(sys.argv[2]) if len(sys.argv) > 2 else ("/tmp/seedwork/out/%s" % pid if os.path.isdir("/tmp/seedwork/out/%s" % pid) else dst)
 
 
 def sh(cmd, **kw):
